@@ -120,6 +120,11 @@ class Rule(Harness):
             # advisory note names exactly the vulnerable-if-unpatched-peer algorithms, order: chacha, cbc, etm
             ordered = [n for c_, n, c in vul if c_ == 'enc' and bool(c) and bool(is_chacha(n))] + \
                       [n for c_, n, c in vul if c_ == 'enc' and bool(c) and not bool(is_chacha(n))] + [n for c_, n, c in vul if c_ == 'mac' and bool(c)]
+            uniq = []
+            for n in ordered:          # a name listed twice is named once
+                if not any(bool(n == u) for u in uniq):
+                    uniq.append(n)
+            ordered = uniq
             adv = [x for x in obs['notes'] if (isinstance(x, str) and 'Terrapin' in x) or (not isinstance(x, str) and bool(x.find('Terrapin') >= 0))]
             if not names:
                 yield 'marker-present:no-advisory-when-nothing-to-name', adv == []
@@ -148,7 +153,7 @@ class Rule(Harness):
             yield 'warning-appended-well-formed', got_ok
             yield 'exactly-the-vulnerable-algorithms-marked', set((c, n) for c, n, _ in changed) == want
             dup = [ex for _, _, ex in changed if ex is not None and len(ex) != 1]
-            # duplicates in the advertised list legitimately add the note once per occurrence; the harness lists have none
+            # a name the peer lists twice is still one algorithm: it carries the warning once
             yield 'marked-once', dup == []
             yield 'unknown-names-of-vulnerable-shape-also-carry-the-warning', unknown_vul == []
         # suppression: every table name of the three classes that is not advertised is suppressed (never recommended for addition)
@@ -258,15 +263,16 @@ def tasks(tier):
     q = tier == 'quick'
     T = []
     encs = [(), ('ctr-db',), ('chacha-db',), ('chacha-tok',), ('cbc-db',), ('cbc-tok',), ('cbcorg-tok',), ('cbcssh-db',), ('rijndael',), ('free-tok',), ('nearcbc-tok',),
-            ('nearchacha-tok',), ('chacha-db', 'cbc-db'), ('cbc-db', 'cbc-db2', 'ctr-db'), ('gcm-db', 'free-tok')]
-    macs = [(), ('plain-db',), ('etm-db',), ('etm-tok',), ('nearetm-tok',), ('free-tok',), ('etm-db', 'etm-db2'), ('etm-db', 'plain-db')]
+            ('nearchacha-tok',), ('chacha-db', 'cbc-db'), ('cbc-db', 'cbc-db2', 'ctr-db'), ('gcm-db', 'free-tok'), ('chacha-db', 'ctr-db', 'chacha-db'), ('cbc-db', 'cbc-db')]
+    macs = [(), ('plain-db',), ('etm-db',), ('etm-tok',), ('nearetm-tok',), ('free-tok',), ('etm-db', 'etm-db2'), ('etm-db', 'plain-db'), ('etm-db', 'etm-db')]
     combos = list(itertools.product(encs, macs))
     if q:
         keep = []
         for e, m in combos:
             if len(e) <= 1 and len(m) <= 1:
                 keep.append((e, m))
-            elif (e, m) in ((('chacha-db', 'cbc-db'), ('etm-db', 'plain-db')), (('cbc-db', 'cbc-db2', 'ctr-db'), ('etm-db', 'etm-db2')), (('gcm-db', 'free-tok'), ('etm-db',))):
+            elif (e, m) in ((('chacha-db', 'cbc-db'), ('etm-db', 'plain-db')), (('cbc-db', 'cbc-db2', 'ctr-db'), ('etm-db', 'etm-db2')), (('gcm-db', 'free-tok'), ('etm-db',)),
+                            (('chacha-db', 'ctr-db', 'chacha-db'), ('plain-db',)), (('cbc-db', 'cbc-db'), ('etm-db', 'etm-db'))):
                 keep.append((e, m))
         combos = keep
     for e, m in combos:
